@@ -87,7 +87,7 @@ _tbl_bounds = {'quick': 'structure sweep: all increasing key sequences of length
 CHECKS['C01'] = dict(
     level=MC, engine='seqx',
     technique='bounded-exhaustive enumeration of (key sequence, value sizes, writer configuration) through the real writer and reader, compared with the input sequence; real mtbl_dump binary on a deterministic subset',
-    text='Every table of the bounded input/configuration space is written by the real writer into a memory file, opened by the real reader and iterated; the result must be the input sequence byte for byte. The space is built around the format\'s boundaries (empty key, prefixes, 0x00/0xff bytes, varint width changes at 128 and 16384, entries larger than a block, every block-cut position, every compression type and level class, restart cadence, foreign prefix), which the 15 tests touch at two shapes only.',
+    text='Every table of the bounded input/configuration space is written by the real writer into a memory file, opened by the real reader and iterated; the result must be the input sequence byte for byte. The space is built around the format\'s boundaries (empty key, prefixes, 0x00/0xff bytes, varint width changes at 128 and 16384, entries larger than a block, every block-cut position, every compression type and level class, restart cadence, foreign prefix), which the 15 tests touch at two shapes only. Thorough tier: one value of 2^30 incompressible bytes under default options, and one zlib data block above 4 GiB (sizes at which zlib\'s 32-bit counters wrap).',
     jobs=[   # cheap jobs first: when the wall-clock budget ends, it is the big sweep that is cut short
         dict(name='level', spec=_TBL, args=['level']),
         dict(name='separators-16bit', spec=_TBL, args=['sep16']),
@@ -143,7 +143,7 @@ CHECKS['C10'] = dict(
 CHECKS['C08'] = dict(
     level=MC, engine='seqx',
     technique='exhaustive enumeration of all key sequences with repetition up to a length bound through the real mtbl_writer_add, against a reference ordering gate; finished file decoded independently',
-    text='All sequences of length <=4 (thorough <=6) WITH repetition over 8 short keys (empty key, prefix pairs, 0x7f/0x80, 0xffff) and over a second pool of 8 keys of 4-5 bytes whose leading bytes span 0x00..0xff x every assignment of small/block-filling values (so refusals happen right before and after a block cut, where the writer temporarily remembers a shortened separator) are added; each add result must equal the reference gate "strictly greater than the last accepted key", and the file must hold exactly the accepted entries with trailer counters to match. mtbl_writer_init is run on existing empty/non-empty files, symlinks (live, dangling, to a directory) and directories.',
+    text='All sequences of length <=4 (thorough <=6) WITH repetition over 8 short keys (empty key, prefix pairs, 0x7f/0x80, 0xffff) and over a second pool of 8 keys of 4-5 bytes whose leading bytes span 0x00..0xff x every assignment of small/block-filling values (so refusals happen right before and after a block cut, where the writer temporarily remembers a shortened separator) are added; each add result must equal the reference gate "strictly greater than the last accepted key", and the file must hold exactly the accepted entries with trailer counters to match. mtbl_writer_init is run on existing empty/non-empty files, symlinks (live, dangling, to a directory) and directories. Keys and values of 2^32 and 2^32+10 bytes (lengths the 32-bit entry header cannot hold; the source is one 2 MiB page set mapped 2049 times) are offered between two ordinary adds: they may be refused - which is how the repaired tree reads the property for entries the format cannot represent - or accepted, and then the finished file must hold them in full.',
     jobs=[dict(name='gate', spec=H('h_gate.c', 'asan'), args=[])],
     states_key='cases', transitions_key='transitions', traces_key='cases',
     rule='one case = (key index sequence, small/big value vector, configuration); signature = (#blocks, #refused, #accepted)',
@@ -350,7 +350,7 @@ _CKS = H('h_cksum.c', 'asan', tu_flags={'mtbl/reader.c': ['-Dmmap=vf_mmap', '-Dm
 CHECKS['C12'] = dict(
     level=FE, engine='envshim',
     technique='exhaustive enumeration of bit-flip patterns (all single, double and triple flips; every burst with first and last flipped bit <=12 apart; pattern families for spans 13-32) in every block region of seed files, checked against mtbl_verify\'s own verify_file() and a verify_checksums reader',
-    text='Part 1: every file of the K9 structure sweep (depth<=3, six algorithms, prefix 0/13) must be reported OK by verify_file() of src/mtbl_verify.c (compiled into the harness, output captured) and drain completely through a verify_checksums reader. Part 2: on seven seed files (writer-made: one tiny block, three ~600-byte blocks with lz4 / uncompressed with prefix; independently encoded: three tiny blocks in v2, v1 and zlib, and eight one-entry blocks whose stored lengths cover every residue modulo 8; plus eight writer-made one-entry tables with value lengths 0..7, so that blocks of every length modulo 8 carry the checksum computed by the library itself). Every undamaged seed must itself verify. The real mtbl_verify binary (exit status and stdout) is run on every undamaged seed and on every 16th single-bit flip. every flip pattern of the families above is applied inside each block\'s checksum+stored-bytes region, data blocks and index block alike; verify_file must never print OK or return true, and a verify_checksums reader iterating from the start or doing get() on the damaged block\'s keys must stop on its assertion before handing out any entry of that block.',
+    text='Part 1: every file of the K9 structure sweep (depth<=3, six algorithms, prefix 0/13) must be reported OK by src/mtbl_verify.c (compiled into the harness and entered through its main(), output captured) and drain completely through a verify_checksums reader. Part 2: on seven seed files (writer-made: one tiny block, three ~600-byte blocks with lz4 / uncompressed with prefix; independently encoded: three tiny blocks in v2, v1 and zlib, and eight one-entry blocks whose stored lengths cover every residue modulo 8; plus eight writer-made one-entry tables with value lengths 0..7, so that blocks of every length modulo 8 carry the checksum computed by the library itself). Every undamaged seed must itself verify. The real mtbl_verify binary (exit status and stdout) is run on every undamaged seed and on every 16th single-bit flip. every flip pattern of the families above is applied inside each block\'s checksum+stored-bytes region, data blocks and index block alike; mtbl_verify must never print OK for the damaged file or exit 0 - also when the damaged file is the second of two files named on one command line (all index-block damage and every 16th other case) -, and a verify_checksums reader iterating from the start or doing get() on the damaged block\'s keys must stop on its assertion before handing out any entry of that block.',
     jobs=[dict(name='intact', spec=_CKS, args=['intact'])] + [dict(name='damage-seed%d' % k, spec=_CKS, args=['damage', str(k)], tools=['mtbl_verify']) for k in range(7)] + [dict(name='damage-writer-tiny', spec=_CKS, args=['damage', '10', '17'], tools=['mtbl_verify'])],
     states_key='states', transitions_key='transitions', traces_key='cases',
     rule='one case = (seed, block region, flip pattern); signature = (seed, batch)',
@@ -397,7 +397,7 @@ CHECKS['C18'] = dict(
 CHECKS['C11'] = dict(
     level=MC, engine='seqx',
     technique='bounded-exhaustive enumeration of well-formed files produced by an independent encoder (every block partition x restart set x sharing amount x index separator choice x format version x compression x foreign prefix over small key sets), read back through the real reader: iteration, get / get_prefix / get_range, seek from exhausted and fresh iterators; >4 GiB block images for 64-bit restart arrays',
-    text='The writer emits one encoding per content; the format allows many. For every strictly increasing key sequence of length <=4 (thorough 5) from K9 the independent encoder produces every partition into blocks, every legal restart set, sharing amounts {0, lcp-1, lcp} per non-restart entry (also in the index block) and, over a second key pool with common prefixes of 2-5 bytes, {0, 1, lcp-1, lcp}, four separator choices per block between "last key" and "just below the next first key", v1 and v2, six compression types, foreign prefix 0/13. The reader (verify_checksums off and on) must return exactly the encoded entries for full iteration, for get/get_prefix/get_range over the 31-string universe, and for seek+next from an exhausted iterator. Blocks larger than 4 GiB with 64-bit restart offsets are built in a lazily zeroed mapping and handed to block_init/block_iter directly.',
+    text='The writer emits one encoding per content; the format allows many. For every strictly increasing key sequence of length <=4 (thorough 5) from K9 the independent encoder produces every partition into blocks, every legal restart set, sharing amounts {0, lcp-1, lcp} per non-restart entry (also in the index block) and, over a second key pool with common prefixes of 2-5 bytes, {0, 1, lcp-1, lcp}, four separator choices per block between "last key" and "just below the next first key", v1 and v2, six compression types, foreign prefix 0/13. The reader (verify_checksums off and on) must return exactly the encoded entries for full iteration, for get/get_prefix/get_range over the 31-string universe, and for seek+next from an exhausted iterator. Blocks larger than 4 GiB with 64-bit restart offsets are built in a lazily zeroed mapping and handed to block_init/block_iter directly. Thorough tier: files whose single zlib block is stored as 1 GiB of stored-deflate data (the reader\'s inflate buffer then reaches 4 GiB).',
     jobs=[dict(name='encoded-files', spec=H('h_encode.c', 'asan'), args=['enc']),
           dict(name='restart64', spec=H('h_encode.c', 'fast'), args=['restart64'], shards=1),
           dict(name='builder64', spec=H('h_encode.c', 'fast'), args=['bb64'], shards=1, tiers=['thorough']),
